@@ -64,6 +64,11 @@ ALLOC_SRCS := sodium/utils.c crypto_pwhash/argon2/argon2-core.c crypto_pwhash/sc
 $(eval $(call SODIUM_VARIANT,plain,$(PLAIN_CC),$(PLAIN_CFLAGS),$(DEFS_STD)))
 $(eval $(call SODIUM_VARIANT,asan,$(ASAN_CC),$(ASAN_CFLAGS),$(DEFS_STD)))
 $(eval $(call SODIUM_VARIANT,tsanabi,$(TSAN_CC),$(TSAN_CFLAGS),$(DEFS_STD)))
+# the optimisation level /repo's own build uses (its configured CFLAGS carry no -O): locals live in memory, nothing is
+# folded away, so a path that reads an uninitialised local or relies on a dead store behaves as it does in the library
+# the test suite runs against
+PLAINO0_CFLAGS := -O0 -g -fstack-protector
+$(eval $(call SODIUM_VARIANT,plainO0,$(PLAIN_CC),$(PLAINO0_CFLAGS),$(DEFS_STD)))
 # allocator variants (C20, C17): posix_memalign and plain malloc paths
 $(eval $(call SODIUM_OVERLAY,plain_pma,plain,$(PLAIN_CC),$(PLAIN_CFLAGS),$(DEF_PTHREAD) $(DEF_PMA),$(ALLOC_SRCS)))
 $(eval $(call SODIUM_OVERLAY,plain_malloc,plain,$(PLAIN_CC),$(PLAIN_CFLAGS),$(DEF_PTHREAD),$(ALLOC_SRCS)))
